@@ -36,6 +36,14 @@ Definition eoutcome (o : outcome) : list Z :=
 Definition eanswer (a : answer) : list Z :=
   match a with ANone => [0] | ANum x => 1 :: eQ x | ABins b => 2 :: eopt elq b end.
 Definition estep (r : outcome * answer) : list Z := eoutcome (fst r) ++ eanswer (snd r).
+(* the other admissible exception class of a refused pad (0: none) *)
+Definition ealt (s : spectrum) (c : call) : list Z :=
+  match c with
+  | CEdit (OPad e0 e1 sm md) => match pad_other_refusal s e0 e1 sm md with Some e => [errcode e] | None => [0] end
+  | _ => [0]
+  end.
+Fixpoint esession (s : spectrum) (cs : list call) : list (list Z) :=
+  match cs with [] => [] | c :: t => let r := do_call s c in (estep r ++ ealt s c) :: esession (fst (fst r)) t end.
 
 Definition run_c15 (inp : list Z) : list Z :=
   match inp with
@@ -44,7 +52,7 @@ Definition run_c15 (inp : list Z) : list Z :=
     | Some (w, v, cs) =>
         match make w v with
         | Err e => [1; errcode e]
-        | Ok s => 0 :: elist estep (session s cs)
+        | Ok s => 0 :: elist (fun x => x) (esession s cs)
         end
     | None => emalformed end
   | 2 :: rest =>
